@@ -149,6 +149,19 @@ proof fn lemma_multi_decoders_agree(bytes: Seq<u8>, p0: nat, w0: Seq<u8>, wa: Se
     assert(wb.subrange(0, c.len() as int) =~= c);
 }
 
+// composition with U-CHUNKSER (same codec spec functions, prelude/xorbidx_codec.rs): what serialize_chunk is proved to append for `chunk`
+// (8-byte header with |payload| and |chunk| in the length fields, a valid scheme byte hs, decode_spec(hs, payload) == chunk), placed at `pos`
+spec fn serialized_at(bytes: Seq<u8>, pos: nat, chunk: Seq<u8>) -> bool {
+    &&& well_formed_at(bytes, pos)
+    &&& chunk_ulen(bytes, pos) == chunk.len()
+    &&& chunk_scheme(bytes, pos) matches Some(hs) && decode_spec(hs, bytes.subrange(pos as int + 8, pos as int + 8 + chunk_clen(bytes, pos))) == chunk
+}
+// decode(serialize(c)) == c: any decoder satisfying single_ok returns exactly the chunk, its length, and skips exactly the serialized form
+proof fn lemma_roundtrip(bytes: Seq<u8>, pos: nat, chunk: Seq<u8>, w0: Seq<u8>, w1: Seq<u8>, pos1: nat, ret: (usize, u32))
+    requires serialized_at(bytes, pos, chunk), single_ok(bytes, pos, w0, w1, pos1, ret),
+    ensures /*@C07*/ w1 == w0 + chunk, /*@C07*/ ret.1 == chunk.len(), /*@C07*/ pos1 == pos + ret.0,
+{}
+
 // ---- header ----------------------------------------------------------------------------------------------------------------------------
 impl CASChunkHeader {
     spec fn clen(&self) -> nat { le3(self.compressed_length@, 0) }
@@ -220,7 +233,7 @@ impl CompressionScheme {
 //@ extract cas_object/src/cas_chunk_format.rs fn deserialize_chunk_to_writer
 //@ ret r
 //@ rules R15
-//@ subst `reader.take(header.get_compressed_length().into())` => `vx_take(header.get_compressed_length().into())` :: R11 stub for std::io::Take: the adapter carries only its limit ...
+//@ subst `reader.take(` => `vx_take(` :: R11 stub for std::io::Take: the adapter carries only its limit ...
 //@ subst `.decompress_from_reader(&mut compressed_data_reader, writer)` => `.vx_decompress_from_take(reader, &mut compressed_data_reader, writer)` :: ... and the reader it wraps is passed to the call that consumes it (Take<&mut R> holds a `&mut`, which the stub cannot)
 //@ contract
     ensures
